@@ -191,7 +191,7 @@ fn fresh_answer(fam: i64, a: &[i64]) -> Vec<i64> {
 fn mixed(ctx: &Ctx) -> usize {
   let mut sink = ctx.sink("Trace_C10", "mixed");
   let mut hsink = ctx.sink("Trace_C10", "mixedce");
-  let n = if ctx.quick() { 1200 } else { 20000 };
+  let n = if ctx.quick() { 1500 } else { 20000 };
   let mut rng = ctx.rng(8000);
   cache_reset();
   hooks::install();
@@ -200,7 +200,15 @@ fn mixed(ctx: &Ctx) -> usize {
     let fam = rng.range(0, NFAM - 1);
     let a = gen(&mut rng, fam);
     let w = answer(fam, &a);
-    qs.push((fam, a, w));
+    // every other query is followed by a close neighbour of the same family (same day / year, another instant / index)
+    if rng.range(0, 1) == 0 {
+      let b = neighbour(&mut rng, fam, &a);
+      let wb = answer(fam, &b);
+      qs.push((fam, a, w));
+      qs.push((fam, b, wb));
+    } else {
+      qs.push((fam, a, w));
+    }
   }
   let pois = hooks::cache_poisoned();
   hsink.segment();
